@@ -276,8 +276,11 @@ fn step(s: &mut Session, sink: &mut Sink, op: &str, req: &str, x: usize, y: usiz
         sink.stat(&format!("creation.{}", k));
     }
     // node census for the calls that change a value in place: "no other node is created, lost …"
+    // (element_wrap adds exactly one element and never makes two text nodes adjacent, so nothing
+    // may be merged away either: seed C05g)
     let census_op = matches!(op, "set_text" | "set_comment" | "set_pi_data" | "set_name" | "text_content_set" | "attr_set_value"
-        | "ns_set_ns" | "pi_set_target" | "text_push" | "value_mut_set" | "el_set_name");
+        | "ns_set_ns" | "pi_set_target" | "text_push" | "value_mut_set" | "el_set_name" | "wrap");
+    let texts_before: Vec<String> = if op == "wrap" { s.live().iter().filter_map(|&l| s.xot.text_str(s.nodes[l]).map(|t| t.to_string())).collect() } else { vec![] };
     let census_before = if census_op { count_nodes(&s.dump()) } else { 0 };
     let childless_element = census_op && s.nodes.get(x).map_or(false, |&n| !s.xot.is_removed(n) && s.xot.is_element(n) && s.xot.first_child(n).is_none());
     let mark = sink.lines.len();
@@ -285,7 +288,18 @@ fn step(s: &mut Session, sink: &mut Sink, op: &str, req: &str, x: usize, y: usiz
     if census_op && resp != "panic" {
         // text_content_mut of an element without children creates the (one) text child; nothing else
         // creates or destroys a node, whatever the call answers (seed C05f)
-        let expected = census_before + if op == "text_content_set" && resp.starts_with("ok") && childless_element { 1 } else { 0 };
+        let expected = census_before
+            + if op == "text_content_set" && resp.starts_with("ok") && childless_element { 1 } else { 0 }
+            + if op == "wrap" && resp.starts_with("ok") { 1 } else { 0 };
+        if op == "wrap" && resp.starts_with("ok") {
+            let mut a = texts_before.clone();
+            let mut b: Vec<String> = s.live().iter().filter_map(|&l| s.xot.text_str(s.nodes[l]).map(|t| t.to_string())).collect();
+            a.sort();
+            b.sort();
+            if a != b {
+                sink.fail("C05", "C05:wrap-alters-text-nodes", &format!("{}: the text nodes held {:?} before and {:?} after", req, a, b), &s.history);
+            }
+        }
         let after = count_nodes(&s.dump());
         if after != expected {
             sink.fail("C05", &format!("C05:{}-creates-or-loses-nodes", op), &format!("{} (answer {}): {} nodes before, {} after, expected {}", req, resp, census_before, after, expected), &s.history);
